@@ -425,6 +425,11 @@ func compare(r *progResult, vm sb.Run, nat binRun) {
 	}
 }
 
+// known finding (shared with C29 attribute-postfix-drops-receiver): the VM is the wrong side
+const kVMPostfix = "vm-attribute-postfix-drops-receiver"
+
+var vmPostfixRe = regexp.MustCompile(`\.\w+(\+\+|--)`)
+
 // known finding: native call frames carry other function names than VM frames
 const kFrameNames = "native-frame-names"
 
@@ -867,6 +872,22 @@ func TestNativeCorpus(t *testing.T) {
 	orc := func(c Case, ctx *pbt.Ctx) error {
 		if len(c.Progs) == 0 {
 			return errors.New("no go_compiler test inputs found under " + repoRoot())
+		}
+		if pbt.KnownActive(kVMPostfix) {
+			// recorded C29 finding: on the VM `recv.attr++` calls the setter without a receiver; such inputs
+			// compare a wrong VM with a right native binary
+			var keep []Prog
+			for _, p := range c.Progs {
+				if vmPostfixRe.MatchString(p.Src) {
+					ctx.Excluded(kVMPostfix)
+					continue
+				}
+				keep = append(keep, p)
+			}
+			if len(keep) == 0 {
+				return nil
+			}
+			c = Case{Progs: keep}
 		}
 		return oracle(observed(c), ctx)
 	}
